@@ -28,6 +28,8 @@ type SimMQ struct {
 	Colls   func(id int64) *RColl
 	streams map[string]*SimStream // by vchannel, current registration
 	All     []*SimStream          // every registration ever made (history)
+	// DupAttempts: keys of the registrations that were asked for while a registration of the same channel was open
+	DupAttempts []string
 	posMemo map[string]*msgpb.MsgPosition
 	ddlMemo map[string]msgstream.TsMsg
 	RegErr  func(vch string) bool
@@ -152,6 +154,10 @@ func (m *SimMQ) register(ctx context.Context, cid string, cfg *msgdispatcher.Str
 		return nil, fmt.Errorf("sim: topic %s not found", pch)
 	}
 	if old := m.streams[key]; old != nil && !old.Closed {
+		// a second subscription of a channel that is being read already (refused here; the oracles of the reader rig take it
+		// for what it is: a collection started twice)
+		m.DupAttempts = append(m.DupAttempts, key)
+		m.sim.Side("second registration of %s while the first is open", key)
 		return nil, fmt.Errorf("sim: vchannel %s already registered", vch)
 	}
 	st := &SimStream{mq: m, VCh: vch, PCh: pch, Ch: make(chan *msgstream.MsgPack, 1), first: true, Client: cid}
